@@ -179,7 +179,7 @@ class Run:
         self.reuse_event = reuse_event
         self._event = None
         self.mutate = mutate
-        self.kept_lists = []
+        self.kept_lists = {}
         self.reseed = reseed
         self.in_progress = []  # announcement indices whose completion is being delivered right now (a stack)
         self.announced = []  # service ids in announcement order
@@ -261,13 +261,14 @@ class Run:
 
     def notified(self, _kind, _j, api):
         if self.mutate == "late" and _j == 0:
-            # an engine that keeps the lists it was given and clears them when the next notification arrives
-            for lst in self.kept_lists:
+            # an engine that keeps the lists it was given and clears them when the next notification OF THAT KIND
+            # arrives (the previous iteration's list, after the next iteration's list has been prepared)
+            for lst in self.kept_lists.get(_kind, []):
                 try:
                     lst.clear()
                 except Exception:  # noqa: BLE001
                     pass
-            self.kept_lists = []
+            self.kept_lists[_kind] = []
         if self.reseed and _j == 0:
             import random as _random
             _random.seed(20240917)  # an application that seeds the global generator in its callbacks
@@ -285,7 +286,7 @@ class Run:
             self.announced.append(api.uuid)
             self.pending.append(k)
             if self.mutate == "late":
-                self.kept_lists.append(api.input_parameters)
+                self.kept_lists.setdefault(_kind, []).append(api.input_parameters)
             elif self.mutate:
                 self.hostile(api)
             if self.imm_other(k):
@@ -309,7 +310,7 @@ class Run:
                 self.hostile(api)
         elif _j == 0 and self.mutate == "late":
             if _kind in ("ts", "ss"):
-                self.kept_lists.append(api.input_parameters)
+                self.kept_lists.setdefault(_kind, []).append(api.input_parameters)
         elif _j == 0 and self.mutate:
             self.hostile(api)
 
